@@ -194,6 +194,16 @@ def fam_own(ctx, kind, mut):
     # the copy is independent of the original
     st, _ = call(lambda: c.move(mv))
     ctx.require(st == 'ok' and snap_eq(s0, snap(o)), 'C20:mutating a deep copy of %s changes the original' % kind)
+    if isinstance(o, ConvexPolygon):
+        # an object derived by unary minus owns its data too: it is built from the polygon's points and must not follow them
+        st, neg = call(lambda: -o)
+        ctx.require(st == 'ok' and isinstance(neg, ConvexPolygon), 'C20:-polygon fails')
+        sn = snap(neg)
+        st, _ = call(lambda: o.move(mv))
+        ctx.require(st == 'ok' and snap_eq(sn, snap(neg)), 'C20:-polygon changes when the polygon it was derived from is moved afterwards')
+        s1 = snap(o)
+        st, _ = call(lambda: neg.move(mv))
+        ctx.require(st == 'ok' and snap_eq(s1, snap(o)), 'C20:moving -polygon changes the polygon it was derived from')
     ctx.outcome('ok')
 
 
